@@ -145,8 +145,8 @@ func c15Depths(tier universe.Tier, unknown bool) []int {
 
 func init() {
 	harness.Register(&harness.Check{
-		ID:    "C15",
-		Level: "model_checking",
+		ID:          "C15",
+		Level:       "model_checking",
 		Explanation: "Bounded exhaustive enumeration (E1): the recursive type R nested along every cyclic word of period <= 2 (thorough 3) over {struct, list, set, map value, map key, list of list}, every depth up to 2200 steps (quick: all <= 140, every 9th above plus windows around observed thresholds), plus 10^4..10^6 steps for period-1 words, in a known-field and in an unknown-field position. One explorer execution = one word, all its depths; the oracle is success-and-correct or DEPTH_LIMIT, monotone in depth, accept <= 48 levels, reject beyond the bound.",
 		Assumptions: []string{"go1.23.5 toolchain, default goroutine stack limit", "levels = number of nested structs and containers including the top-level struct", "bound for schema-parsed nesting: anything > 1023 levels must be rejected; for skipped unknown fields: value nesting > 65 must be rejected"},
 		Phases: func(tier universe.Tier) []*harness.Phase {
